@@ -615,8 +615,8 @@ class TV:
                         self.fail(fam, f"{t2}.result", f"C returns {term[1]} after a consuming transition (OK at chunk end or continue expected)", line, self.witness_from(hyp))
                     else:
                         if consumed != 1:
-                            self.fail("protocol", f"{t2}.consume-count", f"consuming transition advanced the pointer {consumed} times", line)
-                        self.prove("protocol", f"{t2}.ok-only-at-chunk-end", hyp, cst.start == end0, "feed returns OK although bytes of the chunk remain", line)
+                            self.fail("chunk", f"{t2}.consume-count", f"consuming transition advanced the pointer {consumed} times", line)
+                        self.prove("chunk", f"{t2}.ok-only-at-chunk-end", hyp, cst.start == end0, "feed returns OK although bytes of the chunk remain", line)
                 else:
                     self.check_continue(t2, i, p, hyp, consumed_expected=1, inval0=inval0, start0=start0, end0=end0, bs=bs, fam=fam, ctx=ctx)
             elif at[0] == "end-verdict":
@@ -721,8 +721,11 @@ class TV:
                 self.fail("coherence", f"{tag}.jpto-without-consume", "jpto label used by a non-consuming move", line)
             tgt = z3.IntVal(n)
         if p["consumed"] != consumed_expected:
-            self.fail(fam, f"{tag}.consumption", f"C advances the pointer {p['consumed']} time(s); the machine consumes {consumed_expected}", line, self.witness_from(hyp))
+            # (family `consume`: C06 refinement, and what C02/C03/C10 rest on - no byte lost, read twice, or read beyond the chunk)
+            self.fail("consume" if ctx == "feed" else fam, f"{tag}.consumption", f"C advances the pointer {p['consumed']} time(s); the machine consumes {consumed_expected}", line, self.witness_from(hyp))
             return
+        if ctx == "feed":
+            self.results.append(Result("consume", f"{tag}.consumption", "proved", "pointer advanced exactly as often as the machine consumes"))
         if ctx == "feed":
             # dispatch precondition for the next block
             self.prove("coherence", f"{tag}.dispatch-precondition", hyp, z3.And(cst.inval == z3.Select(self.In, cst.start), cst.start < end0, cst.start >= 0),
